@@ -14,3 +14,9 @@ p.update({"property": prop, "seed": s, "index": i, "hashseed": "0"})
 print(json.dumps(p)[:3000])
 r = driver.execute_plans(world, [p], 1, float(os.environ.get("T", "40")))[0]
 print({k: v for k, v in r.items() if k not in ("stats",)})
+if os.environ.get("MIN") == "1" and r["status"] == "violation":
+    os.environ.pop("VERIF_CHILD_OUTPUT", None)
+    mp, mr, tried = driver.minimise(world, p, r, 120, 120, 16)
+    print("MINIMISED after", tried, "trials")
+    print(json.dumps({"config": mp["config"], "steps": mp["steps"]}))
+    print(mr["msg"][:600])
